@@ -244,6 +244,10 @@ func (valdec mapDecoder) decodeObjectAsMap(dec *Decoder, p interface{}, tag byte
 }
 
 func (valdec mapDecoder) Decode(dec *Decoder, p interface{}, tag byte) {
+	if !dec.enter() {
+		return
+	}
+	defer dec.leave()
 	switch tag {
 	case TagNull:
 		mp := reflect2.PtrOf(p)
